@@ -328,6 +328,22 @@ def isCompound : Cmd → Bool
   | .ifc .. | .loop .. | .group .. | .subsh .. => true
   | _ => false
 
+/-- can this token start a command (`and_or_list` returns `Some`)? -/
+def startsCmd (t : Tok) : Bool :=
+  match t with
+  | .word _ _ => !isClauseDelim t
+  | .here _ => true
+  | t => (openTok t).isSome
+
+/-- after `&&` / `||` (`and_or.rs`): newlines are skipped before the next command, also the newlines
+    that follow an alias substituted to nothing -/
+def skipNlAlias (cfg : PCfg) : Nat → List Tok → List Tok
+  | 0, ts => ts
+  | n + 1, ts =>
+    match substAlias cfg 8 (skipNl ts) with
+    | .nl :: rest => skipNlAlias cfg n (.nl :: rest)
+    | ts' => ts'
+
 mutual
   /-- `Parser::command` (simple or compound) at a token that has been alias-substituted -/
   def pCommand (cfg : PCfg) : Nat → List Tok → PR Cmd
@@ -489,30 +505,28 @@ mutual
     | n + 1, l, ts =>
       match ts with
       | .op "&&" :: r =>
-        (match pCommand cfg n (skipNl r) with
+        (match pCommand cfg n (skipNlAlias cfg 8 r) with
          | .ok c r' => pAndOrRest cfg n (.andor l true c) r'
          | .inc => .inc
          | .err => .err)
       | .op "||" :: r =>
-        (match pCommand cfg n (skipNl r) with
+        (match pCommand cfg n (skipNlAlias cfg 8 r) with
          | .ok c r' => pAndOrRest cfg n (.andor l false c) r'
          | .inc => .inc
          | .err => .err)
       | _ => .ok l ts
 
-  /-- `Parser::list`: and-or lists separated by `;` on one line (possibly none) -/
+  /-- `Parser::list`: and-or lists separated by `;` on one line (possibly none); the delimiting newline
+      is not consumed -/
   def pList (cfg : PCfg) : Nat → List Tok → PR (List Cmd)
     | 0, _ => .err
     | n + 1, ts =>
       match substAlias cfg 8 ts with
       | [] => .ok [] []
       | t :: rest =>
-        let startsCommand : Bool :=
-          match t with
-          | .word _ _ => !isClauseDelim t
-          | .here _ => true
-          | t => (openTok t).isSome
-        if !startsCommand then .ok [] (t :: rest) else
+        -- `Parser::list`: after a `;` separator the next and-or list is parsed *without* skipping
+        -- newlines: a newline there (also one left after an alias substituted to nothing) ends the list
+        if !startsCmd t then .ok [] (t :: rest) else
         match pAndOr cfg n (t :: rest) with
         | .inc => .inc
         | .err => .err
